@@ -62,6 +62,7 @@ theorem Tcp.encodeAdu_eq (tid : UInt16) (uid : UInt8) (encPdu : Bytes → Res (N
     (henc : EncodesAs encPdu img) (buf : Bytes) :
     Tcp.encodeAdu tid uid encPdu buf =
       if buf.length < img.length + 7 then .err .bufferSize
+      else if 65535 < img.length + 1 then .err .bufferSize
       else .ok (img.length + 7, Tcp.frameImage tid uid img ++ buf.drop (img.length + 7)) := by
   unfold Tcp.encodeAdu
   by_cases h7 : buf.length < 7
@@ -91,11 +92,71 @@ theorem Tcp.encodeAdu_eq (tid : UInt16) (uid : UInt8) (encPdu : Bytes → Res (N
         have h4 : ¬ (rest.length + 7 < img.length + 7) := by omega
         have h5 : ¬ (([b0, b1, b2, b3, b4, b5, b6] ++ rest).length < img.length + 7) := by simp; omega
         simp only [hl, h4, h5, if_false]
+        by_cases h6 : 65535 < img.length + 1
+        · have h6' : ¬ (img.length + 1 ≤ 65535) := by omega
+          simp only [u16TryFrom, h6, h6', if_true, if_false, Res.bind'_err]
+        have h6' : img.length + 1 ≤ 65535 := by omega
+        simp only [u16TryFrom, h6, h6', if_true, if_false, Res.bind'_ok]
         have w2 : applyWrites (be16 tid ++ be16 0 ++ [b4, b5, uid] ++ (img ++ rest.drop img.length))
             [(4, be16 (UInt16.ofNat (img.length + 1)))] =
             .ok (be16 tid ++ be16 0 ++ be16 (UInt16.ofNat (img.length + 1)) ++ [uid] ++ (img ++ rest.drop img.length)) := by
           simp [applyWrites, writeAt, be16]
         rw [w2]
         simp [finish, Tcp.frameImage, be16]
+
+/-- a two-byte store at offset 4 of a buffer with at least six bytes -/
+theorem applyWrites_at4 (b : Bytes) (x y : UInt8) (h : 6 ≤ b.length) :
+    applyWrites b [(4, [x, y])] = .ok (b.take 4 ++ [x, y] ++ b.drop 6) := by
+  have h' : 4 + 2 ≤ b.length := h
+  simp [applyWrites, writeAt, h']
+
+/-- **The MBAP length field never wraps.**  For EVERY PDU encoder (no equation assumed), every transaction
+    id, unit id and buffer: whenever `Tcp.encodeAdu` succeeds with `(n, out)`, then `7 ≤ n`, the PDU length
+    plus one `n - 6` is at most 65535, and the bytes `out[4], out[5]` read big-endian are exactly `n - 6`. -/
+theorem Tcp.encodeAdu_ok_length_field (tid : UInt16) (uid : UInt8) (encPdu : Bytes → Res (Nat × Bytes))
+    (buf : Bytes) (n : Nat) (out : Bytes) (h : Tcp.encodeAdu tid uid encPdu buf = .ok (n, out)) :
+    7 ≤ n ∧ n - 6 ≤ 65535 ∧ n ≤ out.length ∧
+    ∃ hi lo, out[4]? = some hi ∧ out[5]? = some lo ∧ hi.toNat * 256 + lo.toNat = n - 6 := by
+  unfold Tcp.encodeAdu at h
+  by_cases h7 : buf.length < 7
+  · simp [h7] at h
+  simp only [h7, if_false] at h
+  cases hw : applyWrites buf [(0, be16 tid), (2, be16 0), (6, [uid])] with
+  | err e => simp [hw] at h
+  | panic => simp [hw] at h
+  | ok b1 =>
+    simp only [hw, Res.bind'_ok] at h
+    cases hp : encPdu (b1.drop 7) with
+    | err e => simp [hp] at h
+    | panic => simp [hp] at h
+    | ok v =>
+      obtain ⟨len, tail⟩ := v
+      simp only [hp, Res.bind'_ok] at h
+      by_cases hl : (b1.take 7 ++ tail).length < len + 7
+      · rw [if_pos hl] at h; cases h
+      rw [if_neg hl] at h
+      by_cases hf : len + 1 ≤ 65535
+      · simp only [u16TryFrom, hf, if_true, Res.bind'_ok] at h
+        have h6 : 6 ≤ (b1.take 7 ++ tail).length := by omega
+        have e : be16 (UInt16.ofNat (len + 1)) =
+            [UInt8.ofNat ((UInt16.ofNat (len + 1)).toNat / 256), UInt8.ofNat ((UInt16.ofNat (len + 1)).toNat % 256)] := rfl
+        rw [e, applyWrites_at4 _ _ _ h6] at h
+        simp only [finish, Res.map_ok, Res.ok.injEq, Prod.mk.injEq] at h
+        obtain ⟨rfl, rfl⟩ := h
+        have hm : (UInt16.ofNat (len + 1)).toNat = len + 1 := by
+          rw [UInt16.toNat_ofNat']; exact Nat.mod_eq_of_lt (by omega)
+        have ht4 : ((b1.take 7 ++ tail).take 4).length = 4 := by
+          rw [List.length_take]; omega
+        refine ⟨by omega, by omega, ?_, UInt8.ofNat ((UInt16.ofNat (len + 1)).toNat / 256),
+          UInt8.ofNat ((UInt16.ofNat (len + 1)).toNat % 256), ?_, ?_, ?_⟩
+        · simp only [List.length_append, List.length_take, List.length_drop, List.length_cons, List.length_nil] at hl ⊢
+          omega
+        · rw [List.append_assoc, List.getElem?_append_right (by omega), ht4]; rfl
+        · rw [List.append_assoc, List.getElem?_append_right (by omega), ht4]; rfl
+        · rw [hm, UInt8.toNat_ofNat', UInt8.toNat_ofNat']
+          have : len + 7 - 6 = len + 1 := by omega
+          rw [this]
+          omega
+      · simp [u16TryFrom, hf] at h
 
 end Modbus
